@@ -1,7 +1,7 @@
 import hashlib
 import json
 
-from harness.common import Prop, canon, use_repo_src, evaluate, case_hash
+from harness.common import Prop, canon, use_repo_src, evaluate, case_hash, scale
 from harness import gen_build as G
 from harness import gen_models as M
 from harness.gen_text import err_tag
@@ -61,7 +61,7 @@ class C12(Prop):
         from dznpy.support_files import strict_port, ilog, misc_utils, meta_helpers, multi_client_selector, mutex_wrapped
         from harness.props.c03 import mk_portscfg
         rng, tier = ctx['rng'], ctx['tier']
-        nhist = 12 if tier == 'quick' else 300
+        nhist = 12 if tier == 'quick' else scale(800)
         failures, disagreements, shapes = [], [], []
         evaluations = 0
         all_cases = []
